@@ -6,8 +6,8 @@
 EXTENDS Tagged, Universe, Serialization, Json, IOUtils
 
 CONSTANTS Deviations
-VARIABLES tags, addl, fbd, d, phase
-vars == <<tags, addl, fbd, d, phase>>
+VARIABLES tags, addl, fbd, ali, d, phase
+vars == <<tags, addl, fbd, ali, d, phase>>
 
 Emit == "EMIT" \in DOMAIN IOEnv /\ IOEnv.EMIT = "1"
 ASSUME Emit => PrintT(ToJson([header |-> TRUE, classes |-> UClasses, enums |-> UEnums, senv |-> UStrAttr, aliasers |-> UAliasers]))
@@ -16,18 +16,18 @@ TagSets == { << <<"a", TInt>>, <<"b", TStr>> >>,
              << <<"a", TInt>>, <<"b", TOpt(TColl("list", TInt))>>, <<"c", TObj("P1")>> >>,
              << <<"a", TAnnot(TInt, << <<"min", 2>> >>)>>, <<"b", TUnion(<<TInt, TStr>>)>> >> }
 Vals == {DInt(1), DInt(3), DStr("a"), DNull, DArr(<<DInt(1)>>), DObj(<< <<"a", DInt(1)>> >>), DBool(TRUE)}
-KeyPool == {"a", "b", "c", "zz"}
+KeyPool == {"a", "b", "c", "zz", "A", "B"}      \* "A", "B": the external names under the upper aliaser
 DataPool == {DObj(<<>>), DInt(1), DArr(<<>>), DNull}
             \cup {DObj(<< <<k1, v1>> >>) : k1 \in KeyPool, v1 \in Vals}
-            \cup {DObj(<< <<k1, v1>>, <<k2, v2>> >>) : k1 \in {"a", "zz"}, k2 \in {"b", "zz", "c"}, v1 \in {DInt(3), DStr("a")}, v2 \in {DStr("a"), DNull}}
-CtxOf(a) == Ctx(Opt(a, fbd, FALSE, "id"))
+            \cup {DObj(<< <<k1, v1>>, <<k2, v2>> >>) : k1 \in {"a", "zz", "A"}, k2 \in {"b", "zz", "c", "B"}, v1 \in {DInt(3), DStr("a")}, v2 \in {DStr("a"), DNull}}
+CtxOf(a) == Ctx(Opt(a, fbd, FALSE, ali))
 
-Init == tags \in TagSets /\ addl \in BOOLEAN /\ fbd \in BOOLEAN /\ d \in {x \in DataPool : x.k # "obj" \/ \A i, j \in DOMAIN x.o : i # j => x.o[i][1] # x.o[j][1]}
+Init == tags \in TagSets /\ addl \in BOOLEAN /\ fbd \in BOOLEAN /\ ali \in {"id", "upper"} /\ d \in {x \in DataPool : x.k # "obj" \/ \A i, j \in DOMAIN x.o : i # j => x.o[i][1] # x.o[j][1]}
         /\ phase = "start"
 M == TaggedM(CtxOf(addl), tags, d, Deviations)
 R == TaggedR(CtxOf(addl), tags, d)
-Eval == /\ phase = "start" /\ phase' = "done" /\ UNCHANGED <<tags, addl, fbd, d>>
-        /\ Emit => PrintT(ToJson([tags |-> tags, addl |-> addl, fbd |-> fbd, data |-> d, kind |-> M.kind, expect |-> M.r,
+Eval == /\ phase = "start" /\ phase' = "done" /\ UNCHANGED <<tags, addl, fbd, ali, d>>
+        /\ Emit => PrintT(ToJson([tags |-> tags, addl |-> addl, fbd |-> fbd, ali |-> ali, data |-> d, kind |-> M.kind, expect |-> M.r,
                                   devkind |-> TaggedM(CtxOf(addl), tags, d, {"ctorvalueerror"}).kind,
                                   ser |-> IF M.kind = "ok" /\ ~IsUnspec(M.r)
                                           THEN TaggedSer(CtxOf(addl), tags, M.r.v, Ser) ELSE DNull]))
@@ -41,5 +41,5 @@ NoEscape == M.kind # "exc"
 \* an accepted value serializes to the one-property object it came from, which is accepted back as the same value
 RoundTripT == (M.kind = "ok" /\ ~IsUnspec(M.r)) =>
    LET back == TaggedR(CtxOf(addl), tags, AsData(TaggedSer(CtxOf(addl), tags, M.r.v, Ser))) IN
-   IsUnspec(back) \/ HasSErr(TaggedSer(CtxOf(addl), tags, M.r.v, Ser)) \/ (back.ok /\ back.v.tag = M.r.v.tag)
+   IsUnspec(back) \/ HasSErr(TaggedSer(CtxOf(addl), tags, M.r.v, Ser)) \/ (back.ok /\ back.v = M.r.v)
 =============================================================================
